@@ -56,7 +56,7 @@ def run(ctx):
         runs = [("one-directive", conf(3, 2, 2, 1), "coverage"),
                 ("two-directives-2subs", conf(2, 2, 2, 2), None),
                 ("two-directives-nested", conf(3, 2, 1, 2, RL2), None),
-                ("sample", conf(5, 3, 2, 4, RL3, 160), None)]
+                ("sample", conf(4, 2, 2, 4, RL3, 160), None)]
     beh_files = []
     for tag, defs, cov in runs:
         m = ctx.tlc("Ignore", defines=defs, timeout=3000, tag=tag, coverage=bool(cov))
